@@ -749,18 +749,23 @@ def main():
             import tempfile, shutil
             for du_ in dep_units:
                 tmp_out = tempfile.mkdtemp(prefix="vf_dep.")
-                env = dict(os.environ, VERIF_OUT=tmp_out, VERIF_NO_WITNESS="1", VERIF_NO_DEPS="1")
+                # the proving unit's own bounded enumerator is allowed to run: when the change takes the function out of the
+                # verified dialect there (verifier undecided), a failing input it finds on the real code is the verdict
+                env = dict(os.environ, VERIF_OUT=tmp_out, VERIF_NO_DEPS="1")
+                env.pop("VERIF_NO_WITNESS", None)
                 pr = subprocess.run([sys.executable, os.path.join(VERIF, "tools", "verdict.py"), du_, "--tier", "quick"], capture_output=True, text=True, env=env, cwd=VERIF)
                 dep_info["results"][du_] = "exit %d" % pr.returncode
                 for line in pr.stdout.split("\n"):
                     mm = re.match(r"^VIOLATION property=\S+ replay=(\S+) obligation=(\S+)", line)
-                    if mm and any(re.search(r"(::|\.)%s\." % re.escape(n_), mm.group(2)) for n_ in names):
+                    if mm and (any(re.search(r"(::|\.)%s\." % re.escape(n_), mm.group(2)) for n_ in names)
+                               or (".bounded-witness." in mm.group(2) and "(verifier undecided" in line)):
                         keep = os.path.join(OUT, "replay", "dep_" + os.path.basename(mm.group(1)))
                         try:
                             shutil.copy(mm.group(1), keep)
                         except OSError:
                             keep = mm.group(1)
-                        dep_violations.append((mm.group(2), keep, du_))
+                        mi = re.search(r" input=(\{.*?\}) \(", line)
+                        dep_violations.append((mm.group(2), keep, du_, mi.group(1) if mi else None))
                 shutil.rmtree(tmp_out, ignore_errors=True)
 
     missing = sorted(o for o in baseline if o not in obs)
@@ -778,12 +783,12 @@ def main():
                                     dependency_check=dep_info, evaluations=1, distinct_nontrivial=len(dep_violations)),
                       assumptions=[], wall_s=round(time.time() - t_start, 2), violations=len(dep_violations))
         json.dump(ev_dep, open(ev_path, "w"), indent=1)
-        for (ob, rp, du_) in dep_violations:
-            extra = ""
+        for (ob, rp, du_, dep_input) in dep_violations:
+            extra = (" input=%s" % dep_input) if dep_input else ""
             if wit:
                 w0 = wit[0]
                 extra = " input=%s" % json.dumps({k: v for k, v in w0.items() if k != "witness"})
-            print("VIOLATION property=%s replay=%s obligation=%s (function imported from unit %s: its contract, which this unit relies on, no longer verifies)%s" % (
+            print("VIOLATION property=%s replay=%s obligation=%s (function imported from unit %s changed: the contract this unit relies on no longer verifies there, or that unit's bounded enumerator finds a failing input)%s" % (
                 prop, rp, ob, du_, extra if extra else " no-failing-input-found"))
         sys.exit(1)
     if dep_info is not None and not dep_violations and os.environ.get("VERIF_NO_WITNESS") != "1" and meta.get("witness") and not failed:
